@@ -316,7 +316,11 @@ fn exec_plan(id: &str, plan: &Value, ctx: &mut Ctx) {
             if w.conns.len() > 1 && sess > 0 {
                 ctx.fault("second_session");
             }
-            let a = w.node(s["a"].as_u64().unwrap_or(1));
+            // a node is addressed by its position in the universe or, for the ids AddNodes may be asked for, by name
+            let a = match s["a_id"].as_str() {
+                Some(name) => NodeId::new(w.universe[1].namespace, name.to_string()),
+                None => w.node(s["a"].as_u64().unwrap_or(1)),
+            };
             let b = w.node(s["b"].as_u64().unwrap_or(2));
             let ty = ref_type(s["ty"].as_u64().unwrap_or(0));
             let tyn = REF_TYPES[(s["ty"].as_u64().unwrap_or(0) as usize) % 3];
@@ -729,6 +733,16 @@ impl Scenario for Nm {
                 let n = rng.urange(2, 4) as u64;
                 let len = if long { rng.urange(4, 30) } else { rng.urange(3, 16) };
                 let names = ["child", "child", "other", "n0", "x y", "a.b", "q"];
+                if rng.chance(0.15) {
+                    // a node is added, deleted (sometimes leaving the references that point at it) and added
+                    // again under the same or another parent with the same or another reference type
+                    let id = format!("x{}", rng.below(6));
+                    let p1 = rng.below(n + 1);
+                    let p2 = if rng.chance(0.7) { p1 } else { rng.below(n + 1) };
+                    steps.push(json!({"op": "add_node", "a": p1, "ty": rng.below(3), "id": id, "name": "re", "sess": 0}));
+                    steps.push(json!({"op": "del_node", "a_id": id, "target_refs": rng.chance(0.4), "via": "service", "sess": rng.below(2)}));
+                    steps.push(json!({"op": "add_node", "a": p2, "ty": rng.below(3), "id": id, "name": "re", "sess": rng.below(2)}));
+                }
                 for _ in 0..len {
                     let a = rng.below(n + 1);
                     let b = 1 + rng.below(n);
